@@ -108,6 +108,9 @@ def run(tier):
             if a:
                 raise ToolError("binding self-test failed: %s record accepted" % nm)
         v.add(binding_selftest="record with a corrupted result and record ending in a hang both rejected")
+    # ---- end to end: mock nodes that answer late; frames in flight at the cluster (a real Session per scenario)
+    from e2e import run_e2e
+    run_e2e(v, wd, tier, "spec")
     v.assumptions += ["executions are synthetic futures (sleep d, then outcome) under tokio's paused clock; virtual time unit 10 ms",
                       "tie order between timer and completions is chosen by futures::select! at random: each scenario is repeated, and the design model covers both orders",
                       "phase 2b drives client/execution.rs (idempotence gate, shared plan) with synthetic attempts on dummy connections; frames on real sockets are the mock-cluster checks' subject"]
